@@ -17,6 +17,7 @@ from fractions import Fraction as F
 from harness.common import exc_class
 
 T50 = F(1, 2 ** 50)
+T44 = F(1, 2 ** 44)   # biased-Y-X only: sqrt closed forms, conditioning ~ 1/bias
 REL = F(1, 10 ** 9)
 TINY = F(1, 2 ** 1070)
 LET = 'IXYZ'
@@ -66,8 +67,8 @@ def close(p, impl, model):
     return abs(impl - model) <= REL * abs(model) + T50 * p + TINY
 
 
-def close_dist(p, impl, model):
-    return abs(impl[0] - model[0]) <= T50 and all(close(p, impl[i], model[i]) for i in (1, 2, 3))
+def close_dist(p, impl, model, t=T50):
+    return abs(impl[0] - model[0]) <= t and all(close(p, impl[i], model[i]) for i in (1, 2, 3))
 
 
 def pynum_tok(v):
@@ -144,8 +145,13 @@ def run(ctx):
 
     kern = []              # in-kernel sample
 
+    seen_keys = {}
+
     def viol(key, what, rep):
-        ctx.violation(key, what, rep)
+        # at most 3 recorded inputs per key (Ctx keeps 200 in all; a region finding must not crowd out others)
+        seen_keys[key] = seen_keys.get(key, 0) + 1
+        if seen_keys[key] <= 3:
+            ctx.violation(key, what, rep)
 
     def call_pd(model, p):
         try:
@@ -154,7 +160,7 @@ def run(ctx):
             return None, e
 
     # ---- (a) the property evaluated directly on the floats ----------------------------------
-    def direct_common(name, params, p, d, keys):
+    def direct_common(name, params, p, d, keys, t=T50):
         """non-negativity, sum, Pr(I); `keys` maps a defect class to a (known) key where a region is known"""
         rep = {'model': name, 'params': params, 'p': p, 'p_hex': float(p).hex(), 'got': [repr(v) for v in d]}
         fd = frac_dist(d)
@@ -172,16 +178,16 @@ def run(ctx):
                 elif 'neg' in keys:
                     k = keys['neg']
                 viol(k, 'Pr(%s) < 0' % LET[i], rep)
-        if abs(sum(fd) - 1) > T50:
-            viol(keys.get('acc', 'sum-not-1'), '|sum - 1| > 2^-50', rep)
-        if abs(fd[0] - (1 - pf)) > T50:
-            viol(keys.get('acc', 'pI-not-1-p'), '|Pr(I) - (1-p)| > 2^-50', rep)
+        if abs(sum(fd) - 1) > t:
+            viol(keys.get('acc', 'sum-not-1'), '|sum - 1| > 2^%d' % (-50 if t == T50 else -44), rep)
+        if abs(fd[0] - (1 - pf)) > t:
+            viol(keys.get('acc', 'pI-not-1-p'), '|Pr(I) - (1-p)| > 2^%d' % (-50 if t == T50 else -44), rep)
         return fd
 
     def relclose(a, b, p):
         return abs(a - b) <= REL * abs(b) + T50 * p + TINY
 
-    def model_cmp(name, params, p, fd, line, keys, sample=False):
+    def model_cmp(name, params, p, fd, line, keys, sample=False, t=T50):
         def fn(ans):
             rep = {'model': name, 'params': params, 'p': p, 'p_hex': float(p).hex(),
                    'impl': [str(v) for v in fd], 'model_answer': ans}
@@ -189,7 +195,7 @@ def run(ctx):
                 ctx.cmp(name, rep, 'distribution', ans)
                 return
             md = [tokq(t) for t in ans.split()]
-            if not close_dist(F(p), fd, md):
+            if not close_dist(F(p), fd, md, t):
                 if 'acc' in keys:
                     viol(keys['acc'], 'implementation differs from the exact model by more than the tolerance', rep)
                 else:
@@ -302,7 +308,7 @@ def run(ctx):
         if e is not None:
             viol(keys.get('exc', 'exception'), 'probability_distribution raised %s: %s' % (exc_class(e), e), rep)
             return
-        fd = direct_common('biased-yx', params, p, d, keys)
+        fd = direct_common('biased-yx', params, p, d, keys, t=T44)
         if fd is None:
             return
         pf, bf = F(p), F(bias)
@@ -310,7 +316,7 @@ def run(ctx):
             if fd[1] != pf or fd[2] != 0 or fd[3] != 0:
                 viol('special-zero-bias', 'zero bias is not pure X noise', rep)
             ask('yx 0/1 %s 0/1' % qtok(pf), lambda ans, fd=fd, rep=rep, pf=pf: (
-                None if close_dist(pf, fd, [tokq(t) for t in ans.split()])
+                None if close_dist(pf, fd, [tokq(t_) for t_ in ans.split()])
                 else ctx.cmp('biased-yx', rep, ' '.join(qtok(v) for v in fd), ans)))
             return
         # documented system on the floats: independent flips with rates rx = pX + pZ, ry = pY + pZ
@@ -325,7 +331,8 @@ def run(ctx):
         disc = A * A - 4 * pf
         bits = 400 + 2 * max(0, -math.floor(math.log2(p))) if p > 0 else 400
         s = isqrt_frac(disc, bits) if disc > 0 else F(0)
-        model_cmp('biased-yx', params, p, fd, 'yx %s %s %s' % (qtok(bf), qtok(pf), qtok(s)), keys, sample=sample and healthy)
+        model_cmp('biased-yx', params, p, fd, 'yx %s %s %s' % (qtok(bf), qtok(pf), qtok(s)), keys,
+                  sample=sample and healthy, t=T44)
 
     for bias in (0.0, 0.01, 0.1, 0.5, 1.0, 2.0, 10.0, 100.0):
         for p in pgrid:
@@ -610,8 +617,10 @@ def run(ctx):
             mod = 'Some (biased_yx %s %s %s)' % (coq_q(tokq(t[1])), pq, coq_q(tokq(t[3])))
         else:
             mod = 'slice (%s, %s, %s) %s %s' % (coq_q(tokq(t[1])), coq_q(tokq(t[2])), coq_q(tokq(t[3])), coq_q(tokq(t[4])), pq)
-        skip_valid = 'true' if any(v < 0 for v in fd) else 'valid_dist %s %s' % (pq, coq_dist(fd))
-        items.append('(match %s with Some m => close_dist %s %s m && %s | None => false end)' % (mod, pq, coq_dist(fd), skip_valid))
+        tol = 'tol_abs_yx' if t[0] == 'yx' else 'tol_abs'
+        skip_valid = 'true' if any(v < 0 for v in fd) else 'valid_dist_tol %s %s %s' % (tol, pq, coq_dist(fd))
+        items.append('(match %s with Some m => close_dist_tol %s %s %s m && %s | None => false end)'
+                     % (mod, tol, pq, coq_dist(fd), skip_valid))
     text = ('From Coq Require Import QArith List Bool.\nFrom QV Require Import ErrorModels.DistQ.\nImport ListNotations.\n'
             'Open Scope Q_scope.\nDefinition checks : list bool :=\n [' + ';\n  '.join(items) + '].\n'
             'Example corr : forallb (fun b => b) checks = true.\nProof. vm_compute. reflexivity. Qed.\n')
